@@ -22,7 +22,7 @@ const (
 
 var Def = driver.PropDef{
 	ID: "C05",
-	Explanation: "Structural necessary conditions of the SYNC/PSYNC hand-off, checked on every path of the anchored functions: " +
+	Explanation: "Structural necessary conditions of the SYNC/PSYNC hand-off, checked on every path of the anchored functions (unexported non-anchor helpers of the same package are looked through: their bodies are inlined, up to two levels, with parameters bound to the arguments): " +
 		"R1 no read-ahead in waitRdbDump (the stream is only read through Read calls with a 1-byte buffer, never wrapped in a buffered reader, and not read any more once the size was announced); " +
 		"R2 one buffered reader per connection (sendPSyncCmd/dump/Sync create exactly one bufio reader and hand that same value to the PSYNC handshake, the RDB copy and the command phase; runIncrementalSync creates a new reader only after the connection was replaced and never copies through a stale one; the raw connection is returned by sendCmd/sendSyncCmd only after a non-zero size was received); " +
 		"R3 bounded copy (Iocopy reads into at most max bytes, writes exactly the prefix read and returns its length; the RDB loops pass the remaining byte count as max, subtract/add the result to the same counter, loop until it is exhausted and flush the dump writer); " +
@@ -34,10 +34,22 @@ var Def = driver.PropDef{
 	Run:        Run,
 }
 
-type rs struct{ c *core.Ctx }
+type rs struct {
+	c   *core.Ctx
+	inl *flow.Inliner
+}
+
+// anchors are the unexported functions the rules reason about by name; other
+// unexported same-package functions count as helpers and are looked through.
+var anchors = map[string]bool{"waitRdbDump": true, "sendPSyncCmd": true, "runIncrementalSync": true, "pSyncPipeCopy": true, "dump": true, "sendCmd": true,
+	"dumpRDBFile": true, "dumpCommand": true, "sendSyncCmd": true, "syncRDBFile": true, "syncCommand": true}
+
+// fn resolves an anchor and returns its view with helper calls inlined.
+func (r *rs) fn(pkgPath, recv, name string) *core.Fn { return r.inl.Fn(r.c.Func(pkgPath, recv, name)) }
 
 func Run(c *core.Ctx) {
-	r := &rs{c}
+	r := &rs{c: c}
+	r.inl = flow.NewInliner(c.Program, func(f *types.Func) bool { return f.Exported() || anchors[f.Name()] })
 	for _, p := range []string{pkgU, pkgS, pkgR} {
 		if c.Pkg(p) == nil {
 			c.Undecidedf("anchor", p, token.NoPos, "package not loaded")
